@@ -213,6 +213,8 @@ def _run_isolated(args, nproc, limits):
                 running[i] = (p, a, path, time.time())
             time.sleep(0.05)
             for i in list(running):
+                if i not in running:  # killed by the early stop below
+                    continue
                 p, a, path, t0 = running[i]
                 if not p.is_alive():
                     p.join()
